@@ -282,7 +282,7 @@ func (vc *VC) implPred(t types.Type) string {
 }
 
 func (vc *VC) needStr() {
-	vc.declFun("strlen", "(declare-fun strlen_raw (Int) Int)\n(declare-fun strat_raw (Int Int) Int)\n(define-fun strlen ((s Int)) Int (abs (strlen_raw s)))\n(define-fun strat ((s Int) (i Int)) Int (mod (strat_raw s i) 256))")
+	vc.declFun("strlen", "(declare-fun strlen_raw (Int) Int)\n(declare-fun strat_raw (Int Int) Int)\n(define-fun strlen ((s Int)) Int (abs (strlen_raw s)))\n(define-fun strat ((s Int) (i Int)) Int (mod (strat_raw s i) 256))\n(assert (forall ((s Int)) (! (=> (= (strlen_raw s) 0) (= s 0)) :pattern ((strlen_raw s)))))")
 }
 
 // tagOf returns the integer tag of a dynamic type.
